@@ -90,30 +90,42 @@ class Pool:
         if self.ex is not None:
             self.ex.shutdown(wait=False, cancel_futures=True)
 
-    def map(self, fn, cases, chunksize=None, deadline=None):
-        """Yield (case, result) in arbitrary order.  Harness problems raise HarnessError."""
-        cases = list(cases)
-        if self.ex is None:
-            for c in cases:
-                if deadline is not None and time.time() > deadline:
-                    return
-                st, case, res = _call((fn, c))
-                if st != "ok":
-                    raise HarnessError(f"{st} in case {case!r}\n{res}")
-                yield case, res
-            return
-        if chunksize is None:
-            chunksize = max(1, min(64, len(cases) // (self.nproc * 8) or 1))
-        try:
-            it = self.ex.map(_call, [(fn, c) for c in cases], chunksize=chunksize)
-            for st, case, res in it:
-                if st != "ok":
-                    raise HarnessError(f"{st} in case {case!r}\n{res}")
-                yield case, res
-                if deadline is not None and time.time() > deadline:
-                    return
-        except cf.process.BrokenProcessPool as e:
-            raise HarnessError(f"worker died: {e}") from None
+    def map(self, fn, cases, chunksize=None, deadline=None, batch=4096):
+        """Yield (case, result) for the cases (any iterable; consumed lazily in batches so
+        that a thorough tier can describe millions of cases without materialising them).
+        Stops at the deadline.  Harness problems raise HarnessError."""
+        it = iter(cases)
+        while True:
+            chunk = []
+            for c in it:
+                chunk.append(c)
+                if len(chunk) >= batch:
+                    break
+            if not chunk:
+                return
+            if deadline is not None and time.time() > deadline:
+                return
+            if self.ex is None:
+                for c in chunk:
+                    if deadline is not None and time.time() > deadline:
+                        return
+                    st, case, res = _call((fn, c))
+                    if st != "ok":
+                        raise HarnessError(f"{st} in case {case!r}\n{res}")
+                    yield case, res
+                continue
+            cs = chunksize
+            if cs is None:
+                cs = max(1, min(64, len(chunk) // (self.nproc * 8) or 1))
+            try:
+                for st, case, res in self.ex.map(_call, [(fn, c) for c in chunk], chunksize=cs):
+                    if st != "ok":
+                        raise HarnessError(f"{st} in case {case!r}\n{res}")
+                    yield case, res
+                    if deadline is not None and time.time() > deadline:
+                        return
+            except cf.process.BrokenProcessPool as e:
+                raise HarnessError(f"worker died: {e}") from None
 
 
 # ----------------------------------------------------------------------- findings
@@ -340,6 +352,14 @@ class Reporter:
 
 def _size(case):
     return len(json.dumps(case, default=_jsonable))
+
+
+def with_samples(cases, k=2):
+    """lazily mark the first k cases so that their runs return a written-out sample"""
+    for i, c in enumerate(cases):
+        if i < k:
+            c["want_sample"] = True
+        yield c
 
 
 def tier_and_seed(argv=None):
